@@ -394,8 +394,11 @@ func runTreeScenario(w *ndWriter, seed int64, variant string, nEvents int, idx i
 	s := &treeScn{tr: tr, rng: rng, pert: pert}
 	s.srv = NewFakeServer(tr)
 	s.srv.Converged = true // the watch is healthy: at quiescence the cache must equal the server
+	// a pointer-reusing source, strictly one change at a time, below plain (unfiltered) nodes
+	inplace := variant == "mixed" && rng.Intn(6) == 0
+	s.srv.InPlace = inplace
 	ctlFilter := "null"
-	if rng.Intn(4) == 0 {
+	if rng.Intn(4) == 0 && !inplace {
 		ctlFilter = []string{"lx1", "nsa", "nlx1"}[rng.Intn(3)]
 	}
 	tr.LogRaw("drv", "begin", fmt.Sprintf(`"run":%q,"variant":%q,"seed":%d,"buf":%d,"keys":["a","b","c","d"],"ctlfilter":%q,"perturb":%d`, run, variant, seed, kcache.EventBufsiz, ctlFilter, pert.rate))
@@ -404,7 +407,7 @@ func runTreeScenario(w *ndWriter, seed int64, variant string, nEvents int, idx i
 	}
 	firstGate := make(chan struct{})
 	earlyClose := false
-	gated := rng.Intn(2) == 0
+	gated := rng.Intn(2) == 0 && !inplace
 	if gated {
 		s.srv.lists = []ListAct{{Gate: firstGate}}
 	}
@@ -445,6 +448,9 @@ func runTreeScenario(w *ndWriter, seed int64, variant string, nEvents int, idx i
 	wide := (variant == "mixed" || variant == "close" || variant == "monitor") && rng.Intn(5) == 0
 	if wide {
 		maxNodes = 10 + rng.Intn(5)
+	}
+	if inplace {
+		kinds = []string{"sub", "sub", "clone", "mon"}
 	}
 	newNode := func() {
 		ps := s.publishers()
@@ -514,6 +520,10 @@ func runTreeScenario(w *ndWriter, seed int64, variant string, nEvents int, idx i
 		maxNodes = 0
 	}
 	sinceBarrier := 0
+	if inplace {
+		// nobody may still be reading objects of the initial state when the source starts rewriting them
+		s.barrier("pace")
+	}
 	for ev := 0; ev < streamLen && !s.wedged; ev++ {
 		if variant == "overflow" && streamLen >= 99 {
 			if ev == streamLen/4 {
@@ -522,8 +532,16 @@ func runTreeScenario(w *ndWriter, seed int64, variant string, nEvents int, idx i
 				s.pauseAll(false)
 			}
 		}
+		if inplace && ev > 0 {
+			s.barrier("pace")
+		}
 		s.mutate()
 		sinceBarrier++
+		if inplace {
+			// the change has reached every node before anything else happens (and before the next rewrite)
+			s.barrier("pace")
+			sinceBarrier = 0
+		}
 		x := rng.Intn(100)
 		switch {
 		case x < 6:
